@@ -605,6 +605,24 @@ theorem watch_resumes_right_after_the_snapshot (before after : List Ev) (h : bef
   have hl : before.length ≠ 0 := by simpa using h
   simp [replayFrom, watchFrom, hl]
 
+/-- **Every attempt of `load` has a deadline of its own** (Tie `tie_loadFreshDeadline`: the WithTimeout call and its
+cancel are inside the retry loop).  However long the earlier Gets hung and however much time the loop has spent, the
+first Get that etcd answers within RequestTimeout installs its snapshot — `load_installs_the_first_successful_snapshot`
+rests on this.  Witness (one deadline for the whole loop, seeded C13-9): after a first Get that timed out every later
+attempt fails at once, although etcd would answer immediately. -/
+theorem load_gives_every_attempt_a_fresh_deadline (timeout cool elapsed : Nat) (slow rest : List GetTry) (g : GetTry)
+    (hs : ∀ x ∈ slow, timeout < x.dur) (hg : g.dur ≤ timeout) :
+    loadCtx true timeout cool elapsed (slow ++ g :: rest) = some g.kvs
+    ∧ loadCtx false 3 1 0 [⟨5, [(1, 1)]⟩, ⟨0, [(1, 2)]⟩, ⟨0, [(1, 2)]⟩, ⟨0, [(1, 2)]⟩] = none
+    ∧ loadCtx true 3 1 0 [⟨5, [(1, 1)]⟩, ⟨0, [(1, 2)]⟩] = some [(1, 2)] := by
+  refine ⟨?_, by decide, by decide⟩
+  induction slow generalizing elapsed with
+  | nil => simp [loadCtx, hg]
+  | cons x t ih =>
+    have hx : ¬ (x.dur ≤ timeout) := Nat.not_le.mpr (hs x (by simp))
+    simp only [List.cons_append, loadCtx, if_true, Nat.zero_add, hx, if_false]
+    exact ih _ (fun y hy => hs y (by simp [hy]))
+
 /-! ### Non-vacuity -/
 
 /-- a valid history with update in place, a shared value, a replayed put, and a reload that changes one key,
